@@ -18,7 +18,8 @@ vars == <<d, chars, src, phase>>
 D  == Defs[d]
 D2 == Defs[D.twin]
 Sel == {i \in 1..Len(Defs) : Defs[i].mode = "str" /\ Defs[i].twin # 0 /\ Defs[i].accepted /\ Defs[Defs[i].twin].accepted
-                             /\ Defs[i].refsOk /\ Defs[Defs[i].twin].refsOk /\ Len(Defs[i].chars) > 0}
+                             /\ Defs[i].refsOk /\ Defs[Defs[i].twin].refsOk /\ Len(Defs[i].chars) > 0
+                             /\ \A k \in 1..Defs[i].nL : ~Defs[i].ref[k].nullable}
 
 Init == d \in Sel /\ chars = <<>> /\ src = <<>> /\ phase = "build"
 Extend(c) == /\ phase = "build" /\ Len(chars) < MaxLen
